@@ -275,9 +275,15 @@ class C09Theta(Spec):
         return PARTS
 
     def extra_stages(self, rep, tier, rng, broken):
-        # is the known deviation of pack_bits_19 still present? (Gen/BitPackFinding.lean compiles iff it is)
-        ok, out, dt = core.lake_build(["DSProofs.Gen.BitPackFinding"])
-        rep.cov["pack_bits_19_deviation_present"] = bool(ok)
+        # is the pinned deviation of pack_bits_19 still present? (generated IR of the routine == the pinned literal kept in Gen/BitPackFinding.lean;
+        # whichever it is, `bitpack_layouts_ok` is the obligation and admits exactly: no deviation, or this one)
+        import os, re
+        try:
+            g = re.search(r"def pack_bits_19 : List PStmt := (.*)", open(os.path.join(core.LEAN, "DSGen", "BitPackIR.lean")).read()).group(1).strip()
+            f = re.search(r"def pinned_pack_bits_19 : List PStmt := (.*)", open(os.path.join(core.LEAN, "DSProofs", "Gen", "BitPackFinding.lean")).read()).group(1).strip()
+            rep.cov["pack_bits_19_deviation_present"] = (g == f)
+        except Exception:
+            rep.cov["pack_bits_19_deviation_present"] = None
         for p in PARTS:
             p._rep = rep
 
